@@ -1,0 +1,315 @@
+// Copyright 2017-2021 Lei Ni (nilei81@gmail.com) and other contributors.
+//
+// Licensed under the Apache License, Version 2.0 (the "License");
+// you may not use this file except in compliance with the License.
+// You may obtain a copy of the License at
+//
+//     http://www.apache.org/licenses/LICENSE-2.0
+//
+// Unless required by applicable law or agreed to in writing, software
+// distributed under the License is distributed on an "AS IS" BASIS,
+// WITHOUT WARRANTIES OR CONDITIONS OF ANY KIND, either express or implied.
+// See the License for the specific language governing permissions and
+// limitations under the License.
+
+//go:build verif
+// +build verif
+
+package dragonboat
+
+// This file is only compiled with the `verif` build tag. It gives a
+// simulation harness kept outside of this repository access to the pending
+// request tables of request.go (pendingProposal, pendingReadIndex,
+// pendingConfigChange, pendingSnapshot, pendingRaftLogQuery) through thin
+// wrappers: every method below is a one line call of the unexported method of
+// the same name. Tables, queues, channels and the RequestState pool are built
+// the way node.go / nodehost.go build them.
+
+import (
+	"math/rand"
+	"sync"
+
+	"github.com/lni/dragonboat/v4/client"
+	"github.com/lni/dragonboat/v4/config"
+	"github.com/lni/dragonboat/v4/internal/rsm"
+	pb "github.com/lni/dragonboat/v4/raftpb"
+	sm "github.com/lni/dragonboat/v4/statemachine"
+)
+
+// VerifNewRequestPool is NodeHost.createPools for a single pool.
+func VerifNewRequestPool(notifyCommit bool) *sync.Pool {
+	p := &sync.Pool{}
+	p.New = func() interface{} {
+		obj := &RequestState{}
+		obj.CompletedC = make(chan RequestResult, 1)
+		obj.pool = p
+		if notifyCommit {
+			obj.committedC = make(chan RequestResult, 1)
+		}
+		return obj
+	}
+	return p
+}
+
+// VerifRequestInfo is the identity of a request as kept in its RequestState.
+type VerifRequestInfo struct {
+	Key          uint64
+	ClientID     uint64
+	SeriesID     uint64
+	Deadline     uint64
+	NotifyCommit bool
+}
+
+// VerifGetRequestInfo returns the identity fields of rs.
+func VerifGetRequestInfo(rs *RequestState) VerifRequestInfo {
+	return VerifRequestInfo{
+		Key:          rs.key,
+		ClientID:     rs.clientID,
+		SeriesID:     rs.seriesID,
+		Deadline:     rs.deadline,
+		NotifyCommit: rs.notifyCommit,
+	}
+}
+
+// VerifCommittedC returns the channel on which the committed notification of
+// rs is delivered (nil when commit notification is off). ResultC() bridges it
+// with a goroutine; a single goroutine harness polls it directly.
+func VerifCommittedC(rs *RequestState) chan RequestResult {
+	return rs.committedC
+}
+
+// VerifResultCode returns the name of the result code of rr.
+func VerifResultCode(rr RequestResult) string {
+	return rr.code.String()
+}
+
+// VerifIsCommittedNotification reports whether rr is the (non terminal)
+// committed notification.
+func VerifIsCommittedNotification(rr RequestResult) bool {
+	return rr.code == requestCommitted
+}
+
+// VerifPendingProposal wraps pendingProposal and its entry queue.
+type VerifPendingProposal struct {
+	p pendingProposal
+	q *entryQueue
+}
+
+// VerifNewPendingProposal creates the table the way newNode does; the key
+// generators are seeded from keySeed instead of pid and wall clock.
+func VerifNewPendingProposal(cfg config.Config, notifyCommit bool,
+	pool *sync.Pool, queueLen uint64, keySeed int64) *VerifPendingProposal {
+	q := newEntryQueue(queueLen, lazyFreeCycle)
+	v := &VerifPendingProposal{q: q}
+	v.p = newPendingProposal(cfg, notifyCommit, pool, q)
+	for i := range v.p.keyg {
+		v.p.keyg[i] = &keyGenerator{rand: rand.New(rand.NewSource(keySeed + int64(i)*7919))}
+	}
+	return v
+}
+
+// Propose ...
+func (v *VerifPendingProposal) Propose(session *client.Session,
+	cmd []byte, timeoutTick uint64) (*RequestState, error) {
+	return v.p.propose(session, cmd, timeoutTick)
+}
+
+// Entries takes the queued proposals like node.handleProposals does.
+func (v *VerifPendingProposal) Entries() []pb.Entry {
+	return append([]pb.Entry(nil), v.q.get(false)...)
+}
+
+// Committed ...
+func (v *VerifPendingProposal) Committed(clientID uint64, seriesID uint64, key uint64) {
+	v.p.committed(clientID, seriesID, key)
+}
+
+// Applied ...
+func (v *VerifPendingProposal) Applied(clientID uint64,
+	seriesID uint64, key uint64, result sm.Result, rejected bool) {
+	v.p.applied(clientID, seriesID, key, result, rejected)
+}
+
+// Dropped ...
+func (v *VerifPendingProposal) Dropped(clientID uint64, seriesID uint64, key uint64) {
+	v.p.dropped(clientID, seriesID, key)
+}
+
+// Tick ...
+func (v *VerifPendingProposal) Tick(tick uint64) { v.p.tick(tick) }
+
+// GC ...
+func (v *VerifPendingProposal) GC() { v.p.gc() }
+
+// Close ...
+func (v *VerifPendingProposal) Close() { v.p.close() }
+
+// VerifPendingReadIndex wraps pendingReadIndex and its request queue.
+type VerifPendingReadIndex struct {
+	p pendingReadIndex
+	q *readIndexQueue
+}
+
+// VerifNewPendingReadIndex ...
+func VerifNewPendingReadIndex(pool *sync.Pool, queueLen uint64) *VerifPendingReadIndex {
+	q := newReadIndexQueue(queueLen)
+	v := &VerifPendingReadIndex{q: q}
+	v.p = newPendingReadIndex(pool, q)
+	return v
+}
+
+// Read ...
+func (v *VerifPendingReadIndex) Read(timeoutTick uint64) (*RequestState, error) {
+	return v.p.read(timeoutTick)
+}
+
+// TakeRequests takes the queued requests like node.handleReadIndex does.
+func (v *VerifPendingReadIndex) TakeRequests() []*RequestState {
+	return append([]*RequestState(nil), v.q.get()...)
+}
+
+// NextCtx ...
+func (v *VerifPendingReadIndex) NextCtx() pb.SystemCtx { return v.p.nextCtx() }
+
+// Add ...
+func (v *VerifPendingReadIndex) Add(sys pb.SystemCtx, reqs []*RequestState) {
+	v.p.add(sys, reqs)
+}
+
+// AddReady ...
+func (v *VerifPendingReadIndex) AddReady(reads []pb.ReadyToRead) { v.p.addReady(reads) }
+
+// Applied ...
+func (v *VerifPendingReadIndex) Applied(applied uint64) { v.p.applied(applied) }
+
+// Dropped ...
+func (v *VerifPendingReadIndex) Dropped(sys pb.SystemCtx) { v.p.dropped(sys) }
+
+// Tick ...
+func (v *VerifPendingReadIndex) Tick(tick uint64) { v.p.tick(tick) }
+
+// Close ...
+func (v *VerifPendingReadIndex) Close() { v.p.close() }
+
+// VerifPendingConfigChange wraps pendingConfigChange and its request channel.
+type VerifPendingConfigChange struct {
+	p pendingConfigChange
+	c chan configChangeRequest
+}
+
+// VerifNewPendingConfigChange ...
+func VerifNewPendingConfigChange(notifyCommit bool) *VerifPendingConfigChange {
+	c := make(chan configChangeRequest, 1)
+	v := &VerifPendingConfigChange{c: c}
+	v.p = newPendingConfigChange(c, notifyCommit)
+	return v
+}
+
+// Request ...
+func (v *VerifPendingConfigChange) Request(cc pb.ConfigChange,
+	timeoutTick uint64) (*RequestState, error) {
+	return v.p.request(cc, timeoutTick)
+}
+
+// TakeRequest takes the queued request like node.handleConfigChange does.
+func (v *VerifPendingConfigChange) TakeRequest() (uint64, []byte, bool) {
+	select {
+	case req, ok := <-v.c:
+		if !ok {
+			return 0, nil, false
+		}
+		return req.key, req.data, true
+	default:
+	}
+	return 0, nil, false
+}
+
+// Committed ...
+func (v *VerifPendingConfigChange) Committed(key uint64) { v.p.committed(key) }
+
+// Dropped ...
+func (v *VerifPendingConfigChange) Dropped(key uint64) { v.p.dropped(key) }
+
+// Apply ...
+func (v *VerifPendingConfigChange) Apply(key uint64, rejected bool) { v.p.apply(key, rejected) }
+
+// Tick ...
+func (v *VerifPendingConfigChange) Tick(tick uint64) { v.p.tick(tick) }
+
+// GC ...
+func (v *VerifPendingConfigChange) GC() { v.p.gc() }
+
+// Close ...
+func (v *VerifPendingConfigChange) Close() { v.p.close() }
+
+// VerifPendingSnapshot wraps pendingSnapshot and its request channel.
+type VerifPendingSnapshot struct {
+	p pendingSnapshot
+	c chan rsm.SSRequest
+}
+
+// VerifNewPendingSnapshot ...
+func VerifNewPendingSnapshot() *VerifPendingSnapshot {
+	c := make(chan rsm.SSRequest, 1)
+	v := &VerifPendingSnapshot{c: c}
+	v.p = newPendingSnapshot(c)
+	return v
+}
+
+// Request ...
+func (v *VerifPendingSnapshot) Request(st rsm.SSReqType, path string,
+	override bool, overhead uint64, index uint64, timeoutTick uint64) (*RequestState, error) {
+	return v.p.request(st, path, override, overhead, index, timeoutTick)
+}
+
+// TakeRequest takes the queued request like node.handleSnapshot does.
+func (v *VerifPendingSnapshot) TakeRequest() (rsm.SSRequest, bool) {
+	select {
+	case req := <-v.c:
+		return req, true
+	default:
+	}
+	return rsm.SSRequest{}, false
+}
+
+// Apply ...
+func (v *VerifPendingSnapshot) Apply(key uint64, ignored bool, aborted bool, index uint64) {
+	v.p.apply(key, ignored, aborted, index)
+}
+
+// Tick ...
+func (v *VerifPendingSnapshot) Tick(tick uint64) { v.p.tick(tick) }
+
+// GC ...
+func (v *VerifPendingSnapshot) GC() { v.p.gc() }
+
+// Close ...
+func (v *VerifPendingSnapshot) Close() { v.p.close() }
+
+// VerifPendingRaftLogQuery wraps pendingRaftLogQuery.
+type VerifPendingRaftLogQuery struct {
+	p pendingRaftLogQuery
+}
+
+// VerifNewPendingRaftLogQuery ...
+func VerifNewPendingRaftLogQuery() *VerifPendingRaftLogQuery {
+	return &VerifPendingRaftLogQuery{p: newPendingRaftLogQuery()}
+}
+
+// Add ...
+func (v *VerifPendingRaftLogQuery) Add(firstIndex uint64,
+	lastIndex uint64, maxSize uint64) (*RequestState, error) {
+	return v.p.add(firstIndex, lastIndex, maxSize)
+}
+
+// Get ...
+func (v *VerifPendingRaftLogQuery) Get() *RequestState { return v.p.get() }
+
+// Returned ...
+func (v *VerifPendingRaftLogQuery) Returned(outOfRange bool,
+	logRange LogRange, entries []pb.Entry) {
+	v.p.returned(outOfRange, logRange, entries)
+}
+
+// Close ...
+func (v *VerifPendingRaftLogQuery) Close() { v.p.close() }
